@@ -437,7 +437,11 @@ int main(int argc, char** argv) {
     const char* op = w[0];
     int isfinal = 0;
 
-    if (!strcmp(op, "loop_init")) {
+    if (!strcmp(op, "loop_init") && loop_ok) {
+      /* the loop is still live (never closed, or uv_loop_close returned UV_EBUSY): re-initialising its storage would
+       * orphan its descriptors - that is a mistake of the caller, not an operation of the catalogue: refused, like the model */
+      outf("bad-op");
+    } else if (!strcmp(op, "loop_init")) {
       { int have = 0; for (int k = 0; k < MAXFD; k++) if (L[k].live && L[k].glob) have++; lock_want = have ? 0 : 2; }
       int rc = UVCALL(uv_loop_init(loop)); loop_ok = rc == 0; lock_want = 0; outf("ret %s", R(rc)); outf("# rc=%d", rc);
     } else if (!strcmp(op, "loop_close")) {
